@@ -91,9 +91,8 @@ def ensure_pbgen():
     return exe
 
 
-def ensure_overlay():
-    """Regenerate pb code from /repo/api/proto (hash-cached) and the overlay json that also
-    injects every file under /verif/hooks at the same relative path under /repo."""
+def ensure_pb():
+    """Regenerate pb code from /repo/api/proto (hash-cached). Returns {virtual path: generated file}."""
     exe = ensure_pbgen()
     proto_root = os.path.join(REPO, "api", "proto")
     hh = _tree_hash(proto_root, (".proto",))
@@ -110,13 +109,30 @@ def ensure_overlay():
             p = os.path.join(d, f)
             rel = os.path.relpath(p, pbdir)
             repl[os.path.join(proto_root, rel)] = p
+    return repl
+
+
+def ensure_overlay(name="all"):
+    """Overlay for driver `name`: regenerated pb code + hooks/banyand/internal/verifdrv/{drv,<name>}/**
+    + every export file hooks/**/zz_verif_<name>.go or zz_verif_<name>_*.go (same-package exports).
+    Drivers are isolated from each other's hook files (builders work concurrently)."""
+    repl = ensure_pb()
+    drvroot = os.path.join(HOOKS, "banyand", "internal", "verifdrv")
     for d, _, fs in os.walk(HOOKS):
         for f in fs:
-            if f.endswith(".go"):
-                p = os.path.join(d, f)
-                rel = os.path.relpath(p, HOOKS)
+            if not f.endswith(".go"):
+                continue
+            p = os.path.join(d, f)
+            rel = os.path.relpath(p, HOOKS)
+            take = False
+            if d.startswith(drvroot):
+                sub = os.path.relpath(d, drvroot).split(os.sep)[0]
+                take = sub in ("drv", name) or name == "all"
+            else:
+                take = name == "all" or f == "zz_verif_%s.go" % name or f.startswith("zz_verif_%s_" % name)
+            if take:
                 repl[os.path.join(REPO, rel)] = p
-    ov = os.path.join(BUILD, "overlay.json")
+    ov = os.path.join(BUILD, "overlay-%s.json" % name)
     new = json.dumps({"Replace": repl}, indent=0, sort_keys=True)
     if not os.path.exists(ov) or open(ov).read() != new:
         open(ov, "w").write(new)
@@ -125,7 +141,7 @@ def ensure_overlay():
 
 def go_build_driver(name, pkgdir=None):
     """Build driver `name` (hooks/banyand/internal/verifdrv/<name>) from the current /repo tree."""
-    ov = ensure_overlay()
+    ov = ensure_overlay(name)
     out = os.path.join(BUILD, "bin", "drv_" + name)
     os.makedirs(os.path.dirname(out), exist_ok=True)
     pkg = pkgdir or ("./banyand/internal/verifdrv/" + name)
